@@ -142,6 +142,11 @@ def o2(W, ob):
                      'disconnect_event_sent is assigned %s in %s' % (key(v), short(w['fn'].path)), where(w['fn'], w['line']))
 
 
+def _reads_of(W, name):
+    from .inventory import _Reads
+    return _Reads(W).of(W.fn(name))
+
+
 def o3(W, ob):
     st = [w for w in W.writes_to_field('disconnect_frame')[0] if w['kind'] == 'store' and 'P2PSession' in w['fn'].path]
     ob.require_count(len(st), 2, 'stores to P2PSession.disconnect_frame')
@@ -156,8 +161,11 @@ def o3(W, ob):
             ok = match_path(f.path, P2P + '::handle_rollback_and_save') and \
                 every_disjunct_has(g, lambda a: match_lin(a, [(has('check_simulation_consistency('), 1)], neq=-1))
             adj = sites(W, f, P2P + '::adjust_gamestate')
-            after = bool(adj) and cfg_of(f).path_avoiding([w['bb']], adj) is None
-            ob.check(ok and after, 'disconnect_frame|reset', 'the pending disconnect frame is cleared only after the rollback that consumed it',
+            # the frame is consumed by the check_simulation_consistency call the guard names; the rollback it asked for runs on every path through the reset -- before
+            # it or, since adjust_gamestate does not read the field, after it
+            after = bool(adj) and (cfg_of(f).path_avoiding([w['bb']], adj) is None or
+                                   ((w['bb'] in adj or cfg_of(f).every_path_from_passes([w['bb']], adj)) and 'self.disconnect_frame' not in _reads_of(W, P2P + '::adjust_gamestate')))
+            ob.check(ok and after, 'disconnect_frame|reset', 'the pending disconnect frame is cleared only together with the rollback that consumed it',
                      'disconnect_frame is reset in %s under %s' % (short(f.path), dnf_str(g)[:200]), where(f, w['line']))
             continue
         merges += 1
@@ -268,7 +276,7 @@ OBLIGATIONS = [
     ('C07.M', 'must-call floor', 'the calls listed for this property in tables/must_call.json are made on every path from the entry of their function to a normal return (interprocedural must-call): a new early return, fast path or extra condition in front of one of them is reported; see rules/mustcall.py', mustcall.rule_for('C07')),
     ('C07.V', 'no unreviewed condition in the pinned helpers', 'for each helper whose body this property\'s rules pin (tables/condition_terms.json), the terms its path conditions are built from (fields, parameters, call results -- no constants, operators or local names) are a subset of the reviewed vocabulary: one more `if` in front of a pinned result (a lock that may time out, "only while an endpoint is running") is reported; see rules/vocab.py', vocab.rule_for('C07')),
     ('C07.S', 'state inventory', 'every field of the structs this property\'s rules read (tables/state.json) is known, and is written only by its reviewed writers (or helpers only they call): a new field is new state across calls -- a cache, a flag, a stored deadline -- that nothing has shown to stay in step; a new writer is a second place that resets, re-arms or moves something; see rules/inventory.py', inventory.state_rule_for('C07')),
-    ('C07.K', 'call inventory', 'every reviewed call of a function that writes state (tables/call_edges.json, callers in the structs this property\'s rules read) is still made, directly or through helpers: a call deleted as redundant is reported; see rules/inventory.py', inventory.call_rule_for('C07')),
+    ('C07.K', 'call inventory', 'every reviewed call of a function that writes state (tables/call_edges.json, callers in the structs this property\'s rules read) is still made, directly or through helpers: a call deleted as redundant is reported; likewise the arguments of logging / debug-only macros change no state, no unreviewed call of a state-writing function appears (tables/call_edges_all.json), the types of the locals a loop carries from one iteration to the next (tables/carried.json) and, per function and field, how reads and writes of the field are ordered (tables/orders.json: a snapshot taken before instead of after an update) are as reviewed; see rules/inventory.py', inventory.call_rule_for('C07')),
     ('C07.A', 'expression inventory', 'every arithmetic expression handed to a call or stored in a field, and what every closure given to an iterator adaptor / collection method returns, is one of the reviewed expressions of its function (tables/expressions.json; linear / guard normal forms, no local names): a changed literal, operator, operand order, factor, predicate or sort key is reported; see rules/inventory.py', inventory.expr_rule_for('C07')),
     ('C07.Z', 'constants and type shapes', 'every named constant keeps its reviewed value and every type its reviewed shape -- variants and fields in order, with their types (tables/shapes.json): a ring size, sentinel, default or wire constant changed by value, a frame or checksum stored in a narrower type, a variant or field added, removed or reordered is reported; see rules/inventory.py', inventory.shape_rule),
 ]
